@@ -63,6 +63,8 @@ type World struct {
 	Behav     map[string]*NodeBehaviour
 	Coop      bool // cooperative kubelet: ignore hostile knobs
 	nestSteps []string
+	// c11Keys: keys of the faultable calls in the order they reached the seam (fault engine)
+	c11Keys []string
 	// CreatedFor["ns/podname"]: see createdRec
 	CreatedFor map[string]createdRec
 	// TplLabels["ns/name"]: labels the user puts on every pod template of that ExtendedDaemonSet
